@@ -54,4 +54,22 @@ CHECKS = {
         assumptions=["records have npre >= 3 and at least one post-trigger sample (the configured minimum)",
                      "projector/basis entries finite; variable-length records with projectors are documented as unimplemented and not generated"],
     ),
+    "C14": dict(
+        pkg=".", hdir="root", test="TestVerif_C14",
+        quick=dict(shards=16, checks=2500, timeout=300),
+        thorough=dict(shards=16, checks=60000, timeout=2400),
+        technique="property-based testing (rapid): independent decoder written from doc/BINARY_FORMATS.md (round-trip), direct and through real PUB/SUB sockets",
+        rule="rapid-generated batches of 1-5 records (channel 0..65534 incl. neighbours of the subscribed channel that share one prefix byte; "
+             "0..5000 samples; signed/unsigned; pre-trigger 0..70000; arbitrary float32 bit patterns for period/volts; trigger times and "
+             "frames incl. 0, negative, 2^31..2^62 +-2, MaxInt64; NaN/+-Inf/overflowing analysis values; 0..64 coefficients); all messages "
+             "of a batch are built before any is decoded, then the batch is published through two real startSocket() PUB sockets and read "
+             "back by an all-channel and a single-channel SUB socket; non-trivial = a record with samples and a non-default value in every "
+             "header field and >= 1 coefficient; distinct = FNV-64 of the case",
+        level_text="Every message produced by messageRecords/messageSummaries for the generated records is decoded field by field at the "
+                   "documented offsets (36-/48-byte little-endian headers, uint16 / float64 payloads) and must reproduce the record exactly; "
+                   "the same batch is received end to end over ZMQ, where the channel-prefix subscriber must get exactly its channel's messages.",
+        level_note="float32 header fields are compared as bit patterns of the float32 conversion (any NaN equals NaN). End-to-end timing "
+                   "problems (handshake/receive time-outs) are reported as inconclusive (exit 2), never as violations.",
+        assumptions=["at most 6 messages are in flight per socket (below the PUB high-water mark of 100), so ZMQ itself never drops"],
+    ),
 }
